@@ -30,6 +30,15 @@ CONTAINERS = ("photon", "photon3d", "charge", "clusters", "pixel", "signal", "im
 OPTIONAL = {"photon3d", "clusters", "phase", "scene", "data"}
 
 
+def _wavelengths(nw, order, seed):
+    wl = [400.0 + 25.0 * i for i in range(nw)]
+    if order == "decreasing":
+        wl = wl[::-1]
+    elif order == "shuffled":
+        np.random.RandomState(seed).shuffle(wl)
+    return wl
+
+
 @st.composite
 def contents(draw, typ):
     pool = [c for c in CONTAINERS if c != "phase" or typ == "MKID"]
@@ -45,7 +54,8 @@ def contents(draw, typ):
             e["dtype"] = draw(st.sampled_from(["uint8", "uint16", "uint32", "uint64"]))
             e["big"] = draw(st.booleans())
         if c == "photon3d":
-            e["nw"] = draw(st.integers(1, 3))
+            e["nw"] = draw(st.integers(1, 4))
+            e["wl_order"] = draw(st.sampled_from(["increasing", "increasing", "decreasing", "shuffled"]))  # the container accepts any wavelength axis
         if c == "scene":
             e["n"] = draw(st.integers(1, 2))
         if c == "clusters":
@@ -81,7 +91,7 @@ def fill(det, cont):
         elif c == "photon3d":
             nw = e["nw"]
             det.photon.array_3d = xr.DataArray(rng.uniform(0, 1000, size=(nw, rows, cols)).astype(e["dtype"]), dims=["wavelength", "y", "x"],
-                                               coords={"wavelength": [400.0 + 25.0 * i for i in range(nw)]})
+                                               coords={"wavelength": _wavelengths(nw, e.get("wl_order", "increasing"), e["seed"])})
         elif c == "charge":
             det.charge.add_charge_array(rng.uniform(0, 500, size=(rows, cols)).round(2))
         elif c == "clusters":
